@@ -145,6 +145,14 @@ impl Stats {
                 }
             }
         }
+        bump(
+            &mut self.faults,
+            "F3d_operations_issued_from_a_destructor_while_unwinding",
+            cfg.threads
+                .iter()
+                .filter(|t| t.contains(&Op::InUnwind))
+                .count() as u64,
+        );
         bump(&mut self.faults, "F8_stale_load", s.stale_loads);
         bump(
             &mut self.probes,
